@@ -31,6 +31,7 @@ func C18(r *core.Run) {
 	recursionGuards(r)
 	accumulatorThreading(r, "lib/j5schema", "lib/j5reflect")
 	nestedSkipsMapEntries(r, "lib/j5schema", "lib/j5reflect", "internal/structure")
+	rules.NonNilFields(r, "lib/j5schema")
 	// every proto kind the reflector accepts is dispatched somewhere; the rest reach the error default
 	rules.TypeSwitchCovers(r, "lib/j5reflect", "newMessageFieldFactory", core.Module+"/lib/j5schema", "FieldSchema", map[string]string{
 		"ArrayField":   "not a valid item schema: reaches the default arm, which returns an error",
@@ -103,7 +104,36 @@ func kindAccessorAgreement(r *core.Run) {
 			}
 			wrapper, format := "", ""
 			direct := false
+			var inspectArm func(nd ast.Node) bool
+			// an arm that only hands over to a helper (`return buildBoolType(…)`) is judged by the
+			// helper's body when that body names exactly one field wrapper
+			var helpers []*ast.BlockStmt
 			ast.Inspect(cc, func(nd ast.Node) bool {
+				ret, ok := nd.(*ast.ReturnStmt)
+				if !ok || len(ret.Results) == 0 {
+					return true
+				}
+				if c, ok := core.Unparen(ret.Results[0]).(*ast.CallExpr); ok {
+					if fn := core.CalleeFunc(bpk.TypesInfo, c); fn != nil && fn.Pkg() == bpk.Types {
+						if cd := core.DeclOf(bpk, fn.Origin()); cd != nil && cd.Body != nil {
+							wrappers := map[string]bool{}
+							ast.Inspect(cd.Body, func(m ast.Node) bool {
+								if cl, ok := m.(*ast.CompositeLit); ok {
+									if t := core.TypeStr(bpk.TypesInfo.TypeOf(cl)); strings.Contains(t, "schema_j5pb.Field_") {
+										wrappers[t] = true
+									}
+								}
+								return true
+							})
+							if len(wrappers) == 1 {
+								helpers = append(helpers, cd.Body)
+							}
+						}
+					}
+				}
+				return true
+			})
+			inspectArm = func(nd ast.Node) bool {
 				switch x := nd.(type) {
 				case *ast.CompositeLit:
 					t := core.TypeStr(bpk.TypesInfo.TypeOf(x))
@@ -121,7 +151,13 @@ func kindAccessorAgreement(r *core.Run) {
 					}
 				}
 				return true
-			})
+			}
+			ast.Inspect(cc, inspectArm)
+			if wrapper == "" {
+				for _, hb := range helpers {
+					ast.Inspect(hb, inspectArm)
+				}
+			}
 			for _, ke := range cc.List {
 				kind := core.ExprStr(ke)
 				kind = kind[strings.LastIndex(kind, ".")+1:]
